@@ -2,7 +2,7 @@
 from . import shared as S
 
 META = {
-    'claim_added': 'Also decided: Node.get_attribute answers only for exactly one matching key (a repeated key cannot be checked on one occurrence and constructed from another); only effective removals count in the exempt-set extraction. Round 3: inside the pair loop neither the rejection of non-string keys nor the stripping stands under a foreign condition (merge keys skipped). Round 6 (E14): caches on the code this property is about are invisible - no value that lives in a memo cell (dict / lazily filled attribute / lru_cache) is modified by the code it is handed to, the key of a cell contains every input its value depends on, no mutable parameter default is modified or handed out; given that, the program is analysed as if every lookup missed.',
+    'claim_added': 'Also decided: Node.get_attribute answers only for exactly one matching key (a repeated key cannot be checked on one occurrence and constructed from another); only effective removals count in the exempt-set extraction. Round 3: inside the pair loop neither the rejection of non-string keys nor the stripping stands under a foreign condition (merge keys skipped). Round 6 (E14): caches on the code this property is about are invisible - no value that lives in a memo cell (dict / lazily filled attribute / lru_cache) is modified by the code it is handed to, the key of a cell contains every input its value depends on, no mutable parameter default is modified or handed out; given that, the program is analysed as if every lookup missed. Round 12: R04.11 - signature introspection keeps no state (which positions are typed and which keys are extra does not depend on call history).',
     'level': 'other',
     'technique': 'static: class-hierarchy facts (MRO), who-may-register / who-may-call rules with resolved receivers, taint '
                  'of document-derived names into getattr/import/eval sinks, dominance (strip before construct, retag on every '
@@ -25,6 +25,11 @@ META = {
 
 
 def run(ctx):
+    # round 12: which positions of a class are typed (and therefore processed) and which keys are extra (and therefore stripped) is read
+    # off the signature at each load; an introspection that keeps state - a parameter list remembered on the class and found again
+    # through a subclass - makes that a function of call history: a tag below an `Any` parameter of the subclass is then never stripped
+    from . import helpers_rules as H0
+    H0.r16_1_purity(ctx, 'R04.11', roots=['yatiml.introspection:class_subobjects'], what='signature introspection (what is typed, what is extra)')
     S.r04_1_safe_base(ctx)
     S.r04_2_loader_sinks(ctx)
     S.r04_3_registrations(ctx)
